@@ -867,6 +867,15 @@ def conc_hot_programs(rng, kind):
         b = [{"op": "Stat", "p": ["s", "y"], "q": [], "c": "", "k": 0} for _ in range(8)]
         c = [{"op": "Stat", "p": ["s", "y"], "q": [], "c": "", "k": 0} for _ in range(8)]
         return setup, [a, b, c]
+    if kind == "read-vs-rename":
+        # whole-file readers of one small file while it is renamed away and back: a reader that opened it
+        # may find it gone when it reads - it must get an answer and leave the drive free
+        a = []
+        for _ in range(4):
+            a += [{"op": "Rename", "p": ["s", "fix"], "q": ["s", "gone"], "c": "", "k": 0}, {"op": "Rename", "p": ["s", "gone"], "q": ["s", "fix"], "c": "", "k": 0}]
+        b = [{"op": "ReadFile", "p": ["s", "fix"], "q": [], "c": "", "k": 0} for _ in range(8)]
+        c = [{"op": "ReadFile", "p": ["s", "fix"], "q": [], "c": "", "k": 0} for _ in range(8)]
+        return setup, [a, b, c]
     a = [{"op": "Chmod", "p": ["s", "fix"], "q": [], "c": "", "k": k} for k in (1, 2, 3)]
     b = [{"op": "Chown", "p": ["s", "fix"], "q": [], "c": "", "k": k} for k in (1, 2, 3)]
     c = [{"op": "Chtimes", "p": ["s", "fix"], "q": [], "c": "", "k": k} for k in (1, 2, 3)]
@@ -887,7 +896,8 @@ def lin_check(it, r):
     states = 0
     for key in ("ret", "inv", None):
         h = dict(hist)
-        h["hint"] = [c["id"] for c in sorted(hist["calls"], key=lambda c: c[key])] if key else []
+        h["hint"] = [c["id"] for c in sorted(hist["calls"], key=lambda c: c[key])] if key else [0]
+        h["usehint"] = bool(key)
         try:
             out, st = core.tlc("Lin.tla", "Lin_x.cfg", workers=2, timeout=(120 if key else 1500), heap="4g",
                                files={"history.json": json.dumps(h), "Lin_x.cfg": txt})
@@ -926,12 +936,12 @@ def run_c11(tier, seed, t0, replay_item=None):
                 setup, clients = conc_hot_programs(rng, "rename-vs-stat")
                 ncl = len(clients)
             elif i % 5 == 4:
-                setup, clients = conc_hot_programs(rng, "attrs")
+                setup, clients = conc_hot_programs(rng, "attrs" if (i // 5) % 2 == 0 else "read-vs-rename")
                 ncl = len(clients)
             else:
                 setup, clients = conc_programs(rng, ncl, ncalls)
             cfg = conc.config(rng, plain_bias=0.75, allow_pgp=False)
-            comps = ["s", "x", "y", "z", "fix", "f", "g"] + ["d%d" % k for k in range(ncl)]
+            comps = ["s", "x", "y", "z", "fix", "gone", "f", "g"] + ["d%d" % k for k in range(ncl)]
             names, pool = conc.names(rng, comps, rng.choice(["plain", "plain", "like", "spaces"]))
             names = {c: (names[c] if c in ("x", "y", "z") else c) for c in comps}
             chunks = {"c1": {"size": 7, "dist": "text", "seed": 1}, "c2": {"size": 600, "dist": "random", "seed": 2}, "c3": {"size": 2900, "dist": "random", "seed": 3}}
